@@ -31,6 +31,9 @@ SIXTH ROUND NOTE: several attempts have been made already, and all the obvious m
     7: """
 SEVENTH ROUND NOTE: many attempts have been made already (direct ones, caches, thresholds on sizes and depths, Unicode classes, read-buffer boundaries). Assume the verification suite explores small inputs exhaustively, a ladder of larger sizes, every nesting depth up to a few dozen, and short sequences of statements. Find something it can still miss. Directions that are still open: a breakage that needs a SEQUENCE of at least four dependent steps (statements, calls or evaluations) before it shows; a breakage that depends on HOW a value was created rather than on the value (computed vs written as a literal, read from inputs vs built in the program, captured vs passed, spread vs indexed); an interaction between TWO entry points or modes (library vs CLI vs the WASM bindings source, file vs inline vs -e, --format then evaluate); a counter, index or accumulator that wraps or saturates; state that survives a FAILED operation; a fast path chosen by an arithmetic coincidence (length divisible by a stride, a value equal to its own rounding, two keys with equal hash-relevant prefixes). The change must still look like something a maintainer would commit. State the trigger exactly in notes.md. Read the code the property is anchored in first and list at least four candidate places in notes.md before choosing.
 """,
+    8: """
+EIGHTH ROUND NOTE: a great many attempts have been made already. Assume a thorough suite: exhaustive small inputs; ladders of sizes, nesting depths and call depths; aliased and shared heap objects; values produced in different ways; sessions that continue after errors and failed calls; heaps pre-loaded with tens of thousands of values; padded sources, CRLF line endings, invisible characters; stdin delivered in chunks; output files that already exist. Find what is STILL open. Suggestions: break a SECONDARY clause of the statement rather than its headline; break the property only on a path that is rarely driven - the code of the WASM bindings themselves in blots-wasm/src/lib.rs (evaluate / format_blots / tokenize / evaluate_inline_expressions: input conversion, output collection, position mapping), the `#name` input-reference syntax, `constants`, record spread and shorthand, optional parameters that receive an explicit null, operators applied to function values, string * list mixtures, the `print` / `time_now` built-ins, output declarations of names bound earlier; or make two features interfere that have no reason to meet. Keep it realistic and small; state the exact trigger in notes.md; read the code first and list at least four candidate places before choosing.
+""",
 }
 text = f"""You are helping to evaluate how well a verification suite detects regressions in the open-source project paul-russo/blots-lang (Blots: a small expression-oriented language written in Rust: pest grammar, tree-walking evaluator, formatter, CLI, WASM bindings).
 
